@@ -1241,7 +1241,8 @@ func (m *Model) firstWins(branches []any, file string) []any {
 			}
 			q := map[string]any{}
 			for kw, val := range pm {
-				if seen[name][kw] && kw != "type" {
+				if seen[name][kw] && kw != "type" && kw != "required" && kw != "properties" {
+					// (the merge appends lists and merges maps: a nested required list or property set given by a later branch is kept)
 					changed = true
 					continue
 				}
